@@ -228,6 +228,11 @@ class C10(ProgramCheck):
                 ctx.trace()
                 try:
                     nc = apply_pass(name, c, ovd)
+                    if ovd != dict(ov):
+                        ctx.fail("override-dict-modified", "%s changed the caller's override dictionary %r into %r" % (name, dict(ov), ovd),
+                                 case=(p, ov, len(path) + 1, path + (name,)))
+                        ovd.clear()
+                        ovd.update(dict(ov))
                 except impl.JaqalError:
                     ctx.count("not_applicable")
                     continue
